@@ -1,7 +1,7 @@
 from common import COMMON_TB
 
 CONFIG = {
-    "lean_modules": ["SA.Props.C06", "SA.Props.C06Par"],
+    "lean_modules": ["SA.Props.C06", "SA.Props.C06Par", "SA.Props.C06Refusal"],
     "level_text": "Theorems over an executable byte-level model of the handshake (chunked transport reader, textproto line / "
                   "MIME-header reading, both line parsers with Go's slicing explicit, SplitField, version negotiation, the "
                   "server's and client's decision trees): C06_admits_only_wellformed, C06_admits_every_wellformed (+ _rendered, "
@@ -20,6 +20,16 @@ CONFIG = {
                   "goroutines released together run independent real NewServerConnection / NewClientConnection calls in a child "
                   "process, a dead child (Go's unrecoverable `fatal error: concurrent map writes`), an outcome or a written byte "
                   "(free-text Message header included) different from the same connection alone is the failing input. "
+                  "A refusal is final (SA.Props.C06Refusal): C06_refusal_is_final (+ _upgrade, _client, _client_upgrade: two streams whose "
+                  "messages up to and including the refused one read the same give the identical result - outcome and every response - "
+                  "whatever bytes follow, for every configuration / TLS behaviour / fuel), C06_refused_whatever_follows (byte level: any "
+                  "first line without LF + well-formed header lines + empty line that is refused, followed by ANY bytes under ANY "
+                  "segmentation), C06_witness_continue_after_400 (the upgrade step run after a 400 admits `Upgrade: socketace/`), "
+                  "C06_refusal_returns_error (regenerated control-flow shape: every response.Write of an error status in handshake / "
+                  "upgrade is followed by the return of an error that is non-nil by construction and not assigned between creation and "
+                  "return; NewServerConnection / NewClientConnection check every step; the client's two status tests return an error); "
+                  "tied to the code by continuations after every refusal class and the monitors `responses written after an error "
+                  "status` / `session although an earlier message was refused`. "
                   "The model is tied to the Go code by running real NewServerConnection / NewClientConnection on a "
                   "chunk-scripted net.Conn and comparing outcome, statuses, headers written, negotiated version and the bytes "
                   "handed to the next layer, each input under >= 5 segmentations.",
@@ -43,8 +53,14 @@ CONFIG = {
             "forms, 13 raw header lines x 3 positions x both messages, upgrade method x Connection x Upgrade grid, EOL "
             "variants with shuffled header order, truncation at every byte of two well-formed streams, oversized lines "
             "(4000..8193, 65536, 1 MiB; thorough 4 MiB) in value/key/request line/continuation/no newline, CR at the "
-            "buffer boundary, random garbage, 1-3 random edits of a valid stream. hs-client: analogous for replies "
-            "(33 status-line forms incl. ParseInt corner cases, Protocol-Version forms, capabilities forms). Both: `par <G> <iters> "
+            "buffer boundary, random garbage, 1-3 random edits of a valid stream; after every refusal class (400 by 8 request-line shapes x "
+            "version header none / supported / foreign, 400 by 3 header shapes, 405 x 3, 409 x 4; at the upgrade step 405 x 2, 406 x 5, "
+            "503 x 2, 500, 2 unparsable) every continuation: the upgrade request for the empty / no / each supported / the 'announced' "
+            "version, with trailing data, with StartTLS against a real TLS peer, a well-formed announce+upgrade pair, a pipelined copy "
+            "of the refused message, two upgrades, bytes the peer sends only after it has read the answer, random chains. "
+            "hs-client: analogous for replies "
+            "(33 status-line forms incl. ParseInt corner cases, Protocol-Version forms, capabilities forms; after each of 15 error "
+            "answers to the announce and 11 to the upgrade request: 200+101, 101, the same answer again, late bytes, random chains). Both: `par <G> <iters> "
             "op ; op ; ...` batches - every refusal (8 unparsable request lines, 7 foreign methods, version / upgrade refusals, "
             "truncations; each with its own free-text reason) next to every other, one refusal on 16 connections, sessions with "
             "different leftovers next to refusals, real StartTLS handshakes next to both, random batches (G 2..36, 50-200 "
